@@ -55,8 +55,7 @@ class InstantiatedGlobalFunction(parser.GlobalFunction):
         """Generate the C++ code for wrapping."""
         if self.original.template:
             instantiated_names = [
-                "::".join(inst.namespaces + [inst.instantiated_name()])
-                for inst in self.instantiations
+                inst.to_cpp() for inst in self.instantiations
             ]
             ret = "{}<{}>".format(self.original.name,
                                   ",".join(instantiated_names))
